@@ -170,6 +170,28 @@ impl C02 {
             post.bal.values().filter(|b| **b > 0).count(),
         ));
 
+        // (0) nobody moves, sends or burns more than the source account holds, also when source and target
+        //     coincide: the amount named in a transfer / notification is an amount that really was there
+        if ok {
+            let src_amt: Option<(String, u128)> = match op {
+                Op::Transfer { amt, .. } | Op::Send { amt, .. } | Op::Burn { amt } => Some((sender.to_string(), *amt)),
+                Op::TransferFrom { owner, amt, .. } | Op::SendFrom { owner, amt, .. } | Op::BurnFrom { owner, amt } => Some((owner.clone(), *amt)),
+                _ => None,
+            };
+            if let Some((src, amt)) = src_amt {
+                if let Some(held) = pre.bal.get(&src) {
+                    h.out.oracle_checks += 1;
+                    if amt > *held {
+                        h.violate(&format!("C02/move/{kind}/moved-more-than-the-source-held"), format!("{kind} of {amt} from {src} accepted, but {src} held only {held}"));
+                        return false;
+                    }
+                    if amt == *held && amt > 0 {
+                        h.out.count("moves_of_exactly_the_whole_balance");
+                    }
+                }
+            }
+        }
+
         // (1) a balance decreases only by its holder, or by a covered, unexpired draw
         for (a, b0) in &pre.bal {
             let b1 = *post.bal.get(a).unwrap_or(&0);
@@ -585,7 +607,7 @@ impl Monitor for C02 {
         ]
     }
     fn rule(&self) -> &'static str {
-        "36 directed histories (all 6 orders of {increase, decrease, draw} x {before, at, after expiry} x {height, time expiry}) then seeded random histories biased to existing (owner,spender) pairs and expiry boundaries; after every call all pool balances and all 36 pool allowances are re-read and compared with an independent allowance/authority model plus a cumulative granted/drawn ledger; Send/SendFrom responses are decoded. distinct = (operation kind, outcome, amount vs allowance below/equal/above, allowance expired?)"
+        "36 directed histories (all 6 orders of {increase, decrease, draw} x {before, at, after expiry} x {height, time expiry}) then seeded random histories biased to existing (owner,spender) pairs and expiry boundaries; after every call all pool balances and all 36 pool allowances are re-read and compared with an independent allowance/authority model plus a cumulative granted/drawn ledger; Send/SendFrom responses are decoded; every fifth history upgrades the token in mid-life through the real migrate from an old version string (by-spender index stripped): balances, allowances and supply must be unchanged and nobody gains authority. distinct = (operation kind, outcome, amount vs allowance below/equal/above, allowance expired?)"
     }
     fn assumptions(&self) -> Vec<&'static str> {
         vec![
